@@ -235,7 +235,9 @@ C02Viol(ev) ==
           (LET d == IF ev.p \in DOMAIN dead /\ ~dead[ev.p].viaDep THEN dead[ev.p] ELSE [xs |-> {}, sure |-> TRUE]
                \* a failure below a when_changed task is tracked under that task's own printed path;
                \* whom it stops further up is not known to the monitor
-               untracked == UNION {dead[p].xs : p \in {p \in DOMAIN dead : p[1][1] = "w"}}
+               \* ... and the failure of a shared (deduplicated) execution is observed, with its exit code, by every
+               \* task that references it, directly or through its callees, wherever that execution printed
+               untracked == UNION {dead[p].xs : p \in {p \in DOMAIN dead : p[1][1] = "w" \/ (Walk(p).ok /\ IsDedup(Walk(p).t))}}
                ok == \/ d.xs = {} /\ ev.xc = ""
                      \/ d.xs = {} /\ \E x \in untracked : ev.xc = ToString(x)
                      \/ \E x \in d.xs : ev.xc = ToString(x)
